@@ -23,8 +23,8 @@ import vlib
 from gen import c07_runs as R
 
 ID = "C07"
-PROPS = ["IsoVerif/Props/C07.lean", "IsoVerif/Props/C07Pool.lean", "IsoVerif/Props/C07Multi.lean"]
-TARGETS = ["IsoVerif.Props.C07", "IsoVerif.Props.C07Pool", "IsoVerif.Props.C07Multi"]
+PROPS = ["IsoVerif/Props/C07.lean", "IsoVerif/Props/C07Pool.lean", "IsoVerif/Props/C07Multi.lean", "IsoVerif/Props/C07Opts.lean"]
+TARGETS = ["IsoVerif.Props.C07", "IsoVerif.Props.C07Pool", "IsoVerif.Props.C07Multi", "IsoVerif.Props.C07Opts"]
 GEN_DEPS = []
 LEVEL = "proof"
 RULE = ("a case = one (configuration, kill point k, phase before/after) of the real pipeline; non-trivial when the kill "
@@ -38,7 +38,10 @@ TRUSTED = ["harness/c07_wrap.py observes open()/gzip.open()/os.remove() and flus
 ASSUMPTIONS = ["content tokens: a file is `good` iff it is the complete output of a correct computation; recomputing a stage "
                "from good inputs yields the same bytes (determinism is the subject of C06/C10)",
                "final files are compared modulo the `# Command line` / version header lines (a resumed run records its own command line)",
-               "BAM input (or --read_assignments), default options except genedb / read_group / keep_tmp / sqanti_output / threads; "
+               "BAM input (or --read_assignments), default options except genedb / read_group / keep_tmp / sqanti_output / threads / "
+               "count_exons / no_model_construction / gzipped outputs (final .gz files are compared by their decompressed content: the "
+               "gzip header carries the time of the run) / high_memory (a resumed run is a --high_memory run iff the flag is "
+               "repeated on the resume command line: the harness tells the model which); "
                "several experiments (--bam_list): every experiment is one run of the model in its own folder (`.params` shared, "
                "written once; a resumed invocation goes through every experiment again), the model configuration of a later "
                "experiment carries `carried` = an earlier experiment has unaligned reads; the tables combined over the experiments "
@@ -63,7 +66,9 @@ SUFFIX = {"corrected_reads.bed": "bed", "read_assignments.tsv": "assign", "trans
           "transcript_model_reads.tsv": "r2t", "extended_annotation.gtf": "ext", "gene_counts.tsv": "gene",
           "transcript_counts.tsv": "tr", "transcript_model_counts.tsv": "model", "gene_grouped_counts.tsv": "geneG",
           "transcript_grouped_counts.tsv": "trG", "transcript_model_grouped_counts.tsv": "modelG",
-          "novel_vs_known.SQANTI-like.tsv": "sq"}
+          "novel_vs_known.SQANTI-like.tsv": "sq", "exon_counts.tsv": "exon", "intron_counts.tsv": "intron",
+          "exon_grouped_counts.tsv": "exonG", "intron_grouped_counts.tsv": "intronG"}
+GZIPPED = ("bed", "assign", "r2t")        # final files that may be gzip streams (`<name>.gz`, path class finalGz)
 LINEAR = {"gene_grouped_counts_linear.tsv": "geneG", "transcript_grouped_counts_linear.tsv": "trG",
           "transcript_model_grouped_counts_linear.tsv": "modelG"}
 TPM = {"gene_tpm.tsv": "gene", "transcript_tpm.tsv": "tr", "transcript_model_tpm.tsv": "model",
@@ -77,6 +82,8 @@ def path_table(chrs, prefix=R.PREFIX):
          "%s/aux/%s.save_info" % (P, P): ["info"], "%s/aux/%s.save_lock" % (P, P): ["lock"]}
     for suf, s in SUFFIX.items():
         t["%s/%s.%s" % (P, P, suf)] = ["final", s]
+        if s in GZIPPED:
+            t["%s/%s.%s.gz" % (P, P, suf)] = ["finalGz", s]
     for suf, s in LINEAR.items():
         t["%s/%s.%s" % (P, P, suf)] = ["finalLin", s]
     for suf, s in TPM.items():
@@ -134,6 +141,8 @@ def canon_trace(trace, table):
         if op.startswith("open:") or op.startswith("gzip:"):
             mode = op.split(":", 1)[1]
             o = "append" if "a" in mode else "create"
+            if op.startswith("gzip:") != (mp[0] == "finalGz"):
+                unknown.append("%s opened with %s" % (rel, op))     # a gzip stream under a plain name, or the reverse
         else:
             o = "remove"
         muts.append((n, o, mp))
@@ -201,6 +210,10 @@ def configs(ctx):
                      "unmapped": True, "seed": seeds[0]})
         cfgs.append({"n": rng.choice([1, 2]), "genedb": rng.random() < 0.5, "rg": rng.choice(["none", "file"]),
                      "keep_tmp": rng.random() < 0.5, "unmapped": rng.random() < 0.5, "seed": seeds[1]})
+        # the options of the extended configuration space, mixed into the plain configurations by the seed
+        # (the history / pool scenarios are built on these configurations and inherit them)
+        cfgs[0].update({"gzip": rng.random() < 0.5, "count_exons": rng.random() < 0.3})
+        cfgs[1].update({"gzip": rng.random() < 0.5, "no_model": rng.random() < 0.3, "high_memory": rng.random() < 0.3})
     else:
         cfgs.append({"toy": True, "n": 1, "genedb": True, "rg": "none", "keep_tmp": False, "unmapped": False, "seed": 0})
         cfgs.append({"n": 3, "genedb": True, "rg": "file", "keep_tmp": False, "unmapped": True, "seed": seeds[0]})
@@ -209,7 +222,36 @@ def configs(ctx):
         cfgs.append({"n": 1, "genedb": False, "rg": "none", "keep_tmp": False, "unmapped": True, "seed": seeds[3]})
         cfgs.append({"n": rng.choice([2, 3]), "genedb": rng.random() < 0.5, "rg": rng.choice(["none", "inline", "file"]),
                      "keep_tmp": rng.random() < 0.5, "unmapped": rng.random() < 0.5, "seed": seeds[5]})
+        cfgs[1].update({"gzip": True, "count_exons": True})
+        cfgs[2].update({"gzip": True, "no_model": True, "high_memory": True})
+        cfgs[3].update({"high_memory": True, "resume_high_memory": True, "count_exons": True})
+        cfgs[4].update({"no_model": True, "count_exons": True})           # --count_exons without an annotation: no effect
+        cfgs[5].update({"gzip": rng.random() < 0.5, "count_exons": rng.random() < 0.5, "no_model": rng.random() < 0.5,
+                        "high_memory": rng.random() < 0.5, "resume_high_memory": rng.random() < 0.5})
     return cfgs
+
+
+def opts_configs(ctx):
+    """the configurations dedicated to the options added to the model: --count_exons, --no_model_construction, gzipped
+    outputs (no --no_gzip), --high_memory (kept or dropped by the resume command line).  Two small ones in the quick tier
+    (every option is on in one of them whatever the seed), the same two + two random ones in the thorough tier"""
+    rng = ctx.rng
+    a = {"n": rng.choice([1, 2]), "genedb": True, "rg": rng.choice(["inline", "file"]), "keep_tmp": rng.random() < 0.25,
+         "unmapped": rng.random() < 0.5, "seed": rng.randrange(10 ** 6), "opts": True,
+         "count_exons": True, "gzip": True, "high_memory": rng.random() < 0.5, "resume_high_memory": rng.random() < 0.5}
+    b = {"n": rng.choice([1, 2]), "genedb": rng.random() < 0.7, "rg": rng.choice(["none", "inline"]), "keep_tmp": False,
+         "unmapped": rng.random() < 0.5, "seed": rng.randrange(10 ** 6), "opts": True,
+         "no_model": True, "high_memory": True, "resume_high_memory": rng.random() < 0.5, "gzip": rng.random() < 0.5,
+         "count_exons": rng.random() < 0.5}
+    res = [a, b]
+    if ctx.tier != "quick":
+        for _ in range(2):
+            res.append({"n": rng.choice([2, 3]), "genedb": rng.random() < 0.8, "rg": rng.choice(["none", "inline", "file"]),
+                        "keep_tmp": rng.random() < 0.3, "unmapped": rng.random() < 0.5, "seed": rng.randrange(10 ** 6),
+                        "opts": True, "count_exons": rng.random() < 0.6, "no_model": rng.random() < 0.5,
+                        "gzip": rng.random() < 0.6, "high_memory": rng.random() < 0.5,
+                        "resume_high_memory": rng.random() < 0.5})
+    return res
 
 
 class Session:
@@ -252,7 +294,13 @@ class Session:
                 "bchrs": [ix[c] for c in self.data["bchrs"]], "genedb": bool(self.cfg.get("genedb", True)),
                 "rg": self.cfg.get("rg", "none"), "keepTmp": bool(self.cfg.get("keep_tmp")),
                 "unmapped": bool(self.cfg.get("unmapped")), "fromSaves": self.from_saves,
-                "sqanti": bool(self.cfg.get("sqanti"))}
+                "sqanti": bool(self.cfg.get("sqanti")), "countExons": bool(self.cfg.get("count_exons")),
+                "noModel": bool(self.cfg.get("no_model")), "gzip": bool(self.cfg.get("gzip")),
+                "highMemory": bool(self.cfg.get("high_memory"))}
+
+    def resume_opts(self):
+        """what the resume command line sets: `--resume` alone runs without --high_memory whatever the killed run had"""
+        return {"resumeHM": bool(self.cfg.get("resume_high_memory")), "resumeKT": False}
 
     def leftover_fs(self, outdir, good=()):
         """model file system of the files found in a folder: complete files of another run are `stale`"""
@@ -385,6 +433,33 @@ class SavesSession(Session):
 
     def args(self, wd, threads=1):
         return R.cli_args(self.cfg, self.data, threads=threads, saves=os.path.join(wd, "out", "saves", R.PREFIX + ".save"))
+
+
+class OptsSession(Session):
+    """a configuration with the options added to the model (--count_exons / --no_model_construction / gzipped outputs /
+    --high_memory); kill points: both phases of every lock, the first removal of every merged stream, a seeded sample"""
+    kind = "opts"
+
+    def points(self, ctx):
+        first, last = self.first_point(), self.muts[-1][0]
+        allp = [(k, ph) for k in range(first, last + 1) for ph in "ba"]
+        if ctx.tier != "quick":
+            return allp
+        special, seen = [], set()
+        for n, op, p in self.muts:
+            if n < first:
+                continue
+            if op == "create" and p[0] in ("collected", "processed", "lock"):
+                special += [(n, "a"), (n, "b")]
+            if op == "remove" and p[0] == "part" and p[1] not in seen:      # merge of a stream starts
+                seen.add(p[1])
+                if p[1] in ("exon", "intronG", "bed", "gene"):
+                    special.append((n, "a"))
+        special = sorted(set(special))
+        if len(special) > 16:
+            special = sorted(ctx.rng.sample(special, 16))
+        rest = [p for p in allp if p not in special]
+        return sorted(set(special + ctx.rng.sample(rest, min(len(rest), 8))))
 
 
 class SqantiSession(Session):
@@ -523,10 +598,15 @@ def sessions(ctx):
         st["sessions"] = []
         for i, cfg in enumerate(configs(ctx)):
             st["sessions"].append(Session(st["base"], i, cfg))
-            ctx.count("config:n=%d,genedb=%s,rg=%s,keep_tmp=%s,unmapped=%s" % (cfg["n"], cfg.get("genedb"), cfg.get("rg"),
-                                                                               cfg.get("keep_tmp"), cfg.get("unmapped")))
+            ctx.count("config:n=%d,genedb=%s,rg=%s,keep_tmp=%s,unmapped=%s%s" % (
+                cfg["n"], cfg.get("genedb"), cfg.get("rg"), cfg.get("keep_tmp"), cfg.get("unmapped"),
+                "".join(",%s" % x for x in ("count_exons", "no_model", "gzip", "high_memory", "resume_high_memory") if cfg.get(x))))
         if os.environ.get("VERIF_C07_VARIANT") != "pinned":     # (the development aid compares the plain scenarios only)
             st["sessions"] += history_sessions(ctx, list(st["sessions"]))
+            for i, cfg in enumerate(opts_configs(ctx)):
+                st["sessions"].append(OptsSession(st["base"], 300 + i, cfg))
+                ctx.count("config:opts:count_exons=%s,no_model=%s,gzip=%s,high_memory=%s,resume_high_memory=%s" % tuple(
+                    bool(cfg.get(x)) for x in ("count_exons", "no_model", "gzip", "high_memory", "resume_high_memory")))
             # --sqanti_output (toy data) and a two-experiment invocation with unaligned reads in both alignment files
             st["sessions"].append(SqantiSession(st["base"], 200, {"toy": True, "n": 1, "genedb": True, "rg": "none",
                                                                   "keep_tmp": False, "unmapped": False, "seed": 0,
@@ -606,7 +686,7 @@ def correspondence(ctx):
             ordk = ordc + [p for p in ord1 if p not in ordc] if ordc else ord1
             rm = canon_trace(r.get("resume_trace", []), sess.table)[0]
             lines.append(vlib.req("C07.verdict", variant=VARIANT_FIXED, cfg=mcfg, ord=ordk, ord2=sess.cleanup_order(rm), k=idx,
-                                  fs0=sess.fs0))
+                                  fs0=sess.fs0, **sess.resume_opts()))
             lines.append(vlib.req("C07.crash", variant=VARIANT_FIXED, cfg=mcfg, ord=ordk, k=idx, fs0=sess.fs0))
             keep.append(((k, ph), r, rm, idx))
         outs = ctx.driver.run(lines)
@@ -1000,7 +1080,8 @@ def pool_kill_check(ctx, sess, pts, res):
         s1, s2, kidx, probs = derive_schedules(base["phases"], perf, killed=True, pending=killer if ph == "b" else None)
         rm = canon_trace(r.get("resume_trace", []), sess.table)[0]
         rm.sort(key=lambda x: x[0])
-        common = dict(variant=VARIANT_FIXED, cfg=mcfg, ord=ordk, ord2=sess.cleanup_order(rm), k=kidx, fs0=sess.fs0, s1=s1, s2=s2)
+        common = dict(variant=VARIANT_FIXED, cfg=mcfg, ord=ordk, ord2=sess.cleanup_order(rm), k=kidx, fs0=sess.fs0, s1=s1, s2=s2,
+                      **sess.resume_opts())
         lines.append(vlib.req("C07.poolVerdict", **common))
         lines.append(vlib.req("C07.poolCrash", variant=VARIANT_FIXED, cfg=mcfg, ord=ordk, k=kidx, fs0=sess.fs0, s1=s1, s2=s2))
         prep.append(((k, ph, th), r, rm, common, probs, snap_keys, killer is None))
@@ -1172,6 +1253,8 @@ def replay(ctx, failure):
             sess = MultiSession(base, 0, cfg, data)
         elif cfg.get("sqanti"):
             sess = SqantiSession(base, 0, cfg, data)
+        elif cfg.get("opts"):
+            sess = OptsSession(base, 0, cfg, data)
         else:
             sess = Session(base, 0, cfg, data)
         if sess.clean_rc != 0:
